@@ -23,6 +23,9 @@ CORPUS = [
       "y": [{"a": 1, "b": 2, "c": 3, "d": 4, "e": 5}, {"a": None, "b": 2, "c": 3, "d": 4, "e": 5}]}],
     [{"s": "😀"}, {"s": "x"}],
     [{"name": [None]}, {"name": None}],
+    [{"uid": 1, "name": "first", "tags": ["a"]}, {}, {"uid": 2, "name": "second", "tags": []}],
+    [{}, {"uid": 1}],
+    [{"uid": 1, "sub": {"a": 1}}, {"uid": 2, "sub": {}}, {}],
 ]
 
 
